@@ -46,10 +46,12 @@ type KSpec struct {
 	Own    bool   `json:"own"` // bsc/eth: timestamp, height and root of the client state's header
 	RootOK bool   `json:"root_ok"`
 	ValsOK bool   `json:"vals_ok"`
+	// bsc/eth: n bytes 0xAB in front of the root: common.BytesToHash crops from the left, so the root is the same 32-byte hash
+	RootPad int `json:"root_pad,omitempty"`
 }
 
 type USpec struct {
-	Mode    string `json:"mode"` // valid wrongparent badseal unauthval oldtime wrongtype badsig notrusted future baddiff driftedge driftok recent past badheader
+	Mode    string `json:"mode"` // valid wrongparent badseal unauthval oldtime wrongtype badsig notrusted future baddiff driftedge driftok recent past badheader otherrev
 	K       uint64 `json:"k"`    // tm: height step above the trusted height
 	DtS     uint64 `json:"dt_s"`
 	NewAcct int    `json:"new_acct"`
@@ -225,6 +227,9 @@ func (w *World) resolveClient(name string, c *CSpec, k *KSpec) (exported.ClientS
 	case "bsc", "eth":
 		if k.RootOK {
 			root = w.evmfx.root
+		}
+		if k.RootPad > 0 {
+			root = append(bytes.Repeat([]byte{0xab}, k.RootPad), root...)
 		}
 		ts, hh := unixS(now)-k.AgeS, cs.GetLatestHeight().(clienttypes.Height)
 		if k.Own && evmRoot != nil {
@@ -458,6 +463,9 @@ func (w *World) resolveHeader(name string, u *USpec, signer *acct) (exported.Hea
 		}
 		hd := mkETHHeader(parentHash, parent.Height.RevisionHeight+1, tm, w.evmfx.root, byte(parent.Height.RevisionHeight+1))
 		hd.Height = clienttypes.NewHeight(parent.Height.RevisionNumber, parent.Height.RevisionHeight+1) // children stay in their parent's revision
+		if mode == "otherrev" { // the revision number is supplied by the relayer and not covered by the block hash (1e12297)
+			hd.Height.RevisionNumber++
+		}
 		hv := tm <= unixS(now.Add(15*time.Second))
 		if mode == "badheader" { // Header.ValidateBasic: bloom longer than 256 bytes
 			hd.Bloom = make([]byte, 257)
